@@ -406,19 +406,21 @@ def locked_colors_arg_sets():
             usage["vsrc"] = _Usage("signal-V")
             expected[("usrc", "signal-U")] = "green"
             expected[("vsrc", "signal-V")] = "green"   # the copied value stays off the wildcard's wire too
-        if "wildcard_own_gate" in on:   # (all(b) > w) : b — the bundle goes green as for every gate, so the scalar takes red
+        if "wildcard_own_gate" in on:   # (all(b) > w) : b — the quantified bundle on red like every bundle, the scalar on green like every scalar next to a bundle
             place("own_gate", "decider-combinator", needs_wire_separation=True, left_operand="signal-everything", left_operand_signal_id=SignalRef("signal-everything", "bsrc"),
                   right_operand="signal-W2", right_operand_signal_id=SignalRef("signal-W2", "wsrc"), output_value_signal_id=BundleRef({"signal-A"}, "bsrc"))
             usage["bsrc"] = _Usage("signal-each")
-            expected[("wsrc", "signal-W2")] = "red"
-            expected[("bsrc", "signal-each")] = "green"
+            expected[("wsrc", "signal-W2")] = "green"
+            expected[("bsrc", "signal-each")] = "red"
         if "bundle_gate" in on:
-            place("gate", "decider-combinator", needs_wire_separation=True, left_operand="signal-G", right_operand=0,
+            # a plain gate (s CMP c) : b — ONE convention with `b OP s`: the bundle (and every member of a wire-merged bundle) on red, the scalar condition on green
+            place("gate", "decider-combinator", needs_wire_separation=True, left_operand="signal-G", left_operand_signal_id=SignalRef("signal-G", "gnode"), right_operand=0,
                   output_value_signal_id=BundleRef({"signal-A"}, "merged_bundle"))
             usage["merged_bundle"] = _Usage("signal-each")
             g.set_source("member_node", "chest")
+            g.set_source("gnode", "g_entity")
             junctions["merged_bundle"] = {"inputs": [BundleRef({"signal-A"}, "member_node"), SignalRef("signal-A", "const_member")], "output_id": "merged_bundle"}
-            expected.update({("merged_bundle", "signal-each"): "green", ("chest", "signal-each"): "green", ("const_member", "signal-each"): "green"})
+            expected.update({("merged_bundle", "signal-each"): "red", ("chest", "signal-each"): "red", ("const_member", "signal-each"): "red", ("g_entity", "signal-G"): "green"})
         lp = object.__new__(LayoutPlanner)
         lp.layout_plan, lp.signal_graph, lp.signal_usage, lp.signal_analyzer = plan, g, usage, _Analyzer(usage)
         lp._memory_modules, lp._wire_merge_junctions, lp.diagnostics = modules, junctions, _Diag()
